@@ -367,7 +367,7 @@ func specExtLen(n int) int {
 }
 
 //@ func Writer.flushFragment
-//@   props C06 C13
+//@   props C06 C13 C16
 //@   call ws.WriteHeader inline
 //@   call bytesWriter.Write inline
 //@   call ws.HeaderSize inline
